@@ -280,8 +280,16 @@ def run(ck):
         explored = [f.result() for f in fx]
     # ---- chained work: done-callbacks that enqueue follow-up jobs (and passive callbacks as the control)
     cj = [distinct_job(100 + k, rng) for k in range(3)]
+    # jobs whose pipeline writes a context key named like the queue's own correlation key; a batch during which one worker retires
+    collide = [{"nodes": [{"k": "src", "cfg": {"value": 3}}, {"k": "mul", "cfg": {"factor": 5}}, {"k": "probe", "ckey": "job_id"}]},
+               {"nodes": [{"k": "src"}, {"k": "mul", "cfg": {"factor": 7}}, {"k": "rename", "a": "value", "b": "job_id"}], "ctx": {"value": 4}},
+               distinct_job(103, rng)]
+    many = [distinct_job(110 + k, rng) for k in range(10)]
+    names = ["3 chains, 2 workers", "passive callbacks", "1 chain, 1 worker", "pipelines writing the key job_id", "a worker retires mid-batch"]
     chained, cerr = core.run_impl(DRIVER, (), {"chained": [{"jobs": cj, "mode": "chain", "workers": 2}, {"jobs": cj, "mode": "passive", "workers": 1},
-                                                         {"jobs": cj[:1], "mode": "chain", "workers": 1}]}, 120)
+                                                         {"jobs": cj[:1], "mode": "chain", "workers": 1},
+                                                         {"jobs": collide, "mode": "passive", "workers": 2},
+                                                         {"jobs": many, "mode": "retire", "workers": 2, "timeout_s": 12.0}]}, 180)
     if chained is None:
         ck.corr_problem("chained-callback driver did not complete", str(cerr)[-1200:])
     else:
@@ -290,8 +298,8 @@ def run(ck):
                 ck.corr_problem("chained-callback scenario %d raised" % j, r["error"])
                 continue
             for sig, what in r["problems"]:
-                ck.fail_input(sig, what + " (scenario %d: %s)" % (j, ["3 chains, 2 workers", "passive callbacks", "1 chain, 1 worker"][j]),
-                              {"kind": "chained", "scenario": j, "jobs": cj if j < 2 else cj[:1]})
+                ck.fail_input(sig + (":job_id-key" if j == 3 else ""), what + " (scenario %d: %s)" % (j, names[j]),
+                              {"kind": "chained", "scenario": j, "jobs": [cj, cj, cj[:1], collide, many][j]})
         ck.notes["chained_callback_scenarios"] = len(chained["chained"])
     results = [None] * len(batches)
     files = None
